@@ -3,6 +3,7 @@ package props
 import (
 	"bytes"
 	"fmt"
+	"github.com/libp2p/go-libp2p/core/peer"
 	"math/rand"
 
 	"github.com/ipfs/go-cid"
@@ -23,12 +24,13 @@ func randCid(r *rand.Rand) cid.Cid {
 
 type adShape struct {
 	Prev, RealEntries, Rm, EP, Override bool
-	NEP, NAddrs                        int
-	KeyType                            string
+	CidFormIDs                          bool
+	NEP, NAddrs                         int
+	KeyType                             string
 }
 
 func (s adShape) String() string {
-	return fmt.Sprintf("prev=%v entries=%v rm=%v ep=%v/%d override=%v addrs=%d key=%s", s.Prev, s.RealEntries, s.Rm, s.EP, s.NEP, s.Override, s.NAddrs, s.KeyType)
+	return fmt.Sprintf("prev=%v entries=%v rm=%v ep=%v/%d override=%v addrs=%d key=%s cid-form-ids=%v", s.Prev, s.RealEntries, s.Rm, s.EP, s.NEP, s.Override, s.NAddrs, s.KeyType, s.CidFormIDs)
 }
 
 func genAddrs(r *rand.Rand, n int) []string {
@@ -82,12 +84,34 @@ func genAd(r *rand.Rand, main Ident, pool []Ident) (*schema.Advertisement, adSha
 			eps, sh.NEP = nil, -1
 		}
 		for _, id := range eps {
-			ep.Providers = append(ep.Providers, schema.Provider{ID: id.ID.String(), Addresses: genAddrs(r, r.Intn(3)), Metadata: rbytes(r, r.Intn(20))})
+			pr := schema.Provider{ID: id.ID.String(), Addresses: genAddrs(r, r.Intn(3)), Metadata: rbytes(r, r.Intn(20))}
+			// entries that leave their values out, or repeat the advertisement's own ("may omit them if they match")
+			switch r.Intn(6) {
+			case 0:
+				pr.Addresses, pr.Metadata = nil, nil
+			case 1:
+				pr.Addresses, pr.Metadata = append([]string(nil), ad.Addresses...), append([]byte(nil), ad.Metadata...)
+			}
+			ep.Providers = append(ep.Providers, pr)
 		}
 		ad.ExtendedProvider = ep
 	} else {
 		sh.Rm = r.Intn(3) == 0
 		ad.IsRm = sh.Rm
+	}
+	// identities may be written in the CID text form of a peer ID instead of base58
+	if r.Intn(8) == 0 {
+		if pid, err := peer.Decode(ad.Provider); err == nil {
+			ad.Provider = peer.ToCid(pid).String()
+		}
+		if ad.ExtendedProvider != nil {
+			for k := range ad.ExtendedProvider.Providers {
+				if pid, err := peer.Decode(ad.ExtendedProvider.Providers[k].ID); err == nil && (r.Intn(2) == 0 || ad.ExtendedProvider.Providers[k].ID == main.ID.String()) {
+					ad.ExtendedProvider.Providers[k].ID = peer.ToCid(pid).String()
+				}
+			}
+		}
+		sh.CidFormIDs = true
 	}
 	return ad, sh, eps
 }
